@@ -302,7 +302,7 @@ def gen_cases(ctx, scale=1.0):
                 cases.append(_case([{'path': [], 'size': size}], [st], rng, single=True, top=top,
                                    pieces='real', xverify=True, name='single.bin', shape='single'))
     # 2. structured random
-    for _ in range(int(ctx.n(500, 12000) * scale)):
+    for _ in range(int(ctx.n(1500, 20000) * scale)):
         n = rng.choice([1, 2, 2, 3, 3, 4, 5, 6, 9])
         pl = K * rng.choice([1, 1, 1, 2, 4])
         sizes = [rng.choice([0, 0, 1, 2, pl - 1, pl, pl + 1, rng.randint(1, 3 * pl), rng.randint(1, 50)])
